@@ -1454,7 +1454,7 @@ DLLEXPORT int tj3CompressFromYUV8(tjhandle handle,
   pw0 = tj3YUVPlaneWidth(0, width, this->subsamp);
   ph0 = tj3YUVPlaneHeight(0, height, this->subsamp);
   srcPlanes[0] = srcBuf;
-  if (pw0 == 0 || ph0 == 0 || pw0 > INT_MAX - (align - 1))
+  if (pw0 == 0 || ph0 == 0 || pw0 > INT_MAX - align)
     THROW("Image or row alignment is too large");
   strides[0] = PAD(pw0, align);
   if (this->subsamp == TJSAMP_GRAY) {
@@ -1714,7 +1714,7 @@ DLLEXPORT int tj3EncodeYUV8(tjhandle handle, const unsigned char *srcBuf,
   pw0 = tj3YUVPlaneWidth(0, width, this->subsamp);
   ph0 = tj3YUVPlaneHeight(0, height, this->subsamp);
   dstPlanes[0] = dstBuf;
-  if (pw0 == 0 || ph0 == 0 || pw0 > INT_MAX - (align - 1))
+  if (pw0 == 0 || ph0 == 0 || pw0 > INT_MAX - align)
     THROW("Image or row alignment is too large");
   strides[0] = PAD(pw0, align);
   if (this->subsamp == TJSAMP_GRAY) {
@@ -2382,7 +2382,7 @@ DLLEXPORT int tj3DecompressToYUV8(tjhandle handle,
   pw0 = tj3YUVPlaneWidth(0, width, this->subsamp);
   ph0 = tj3YUVPlaneHeight(0, height, this->subsamp);
   dstPlanes[0] = dstBuf;
-  if (pw0 == 0 || ph0 == 0 || pw0 > INT_MAX - (align - 1))
+  if (pw0 == 0 || ph0 == 0 || pw0 > INT_MAX - align)
     THROW("Image or row alignment is too large");
   strides[0] = PAD(pw0, align);
   if (this->subsamp == TJSAMP_GRAY) {
@@ -2706,7 +2706,7 @@ DLLEXPORT int tj3DecodeYUV8(tjhandle handle, const unsigned char *srcBuf,
   pw0 = tj3YUVPlaneWidth(0, width, this->subsamp);
   ph0 = tj3YUVPlaneHeight(0, height, this->subsamp);
   srcPlanes[0] = srcBuf;
-  if (pw0 == 0 || ph0 == 0 || pw0 > INT_MAX - (align - 1))
+  if (pw0 == 0 || ph0 == 0 || pw0 > INT_MAX - align)
     THROW("Image or row alignment is too large");
   strides[0] = PAD(pw0, align);
   if (this->subsamp == TJSAMP_GRAY) {
